@@ -12,6 +12,8 @@ from .result import Result
 
 def main(argv):
     prop, spec_path, out_path = argv
+    import os
+    os.environ['VERIF_OUT_PATH'] = out_path
     faulthandler.enable()
     import signal
     # the driver sends SIGUSR1 before killing a shard that exceeded its
